@@ -450,9 +450,23 @@ static inline double cmb_random_std_beta(const double a, const double b)
     cmb_assert_release(a > 0.0);
     cmb_assert_release(b > 0.0);
 
-    const double x = cmb_random_std_gamma(a);
-    const double y = cmb_random_std_gamma(b);
-    const double r = x / (x + y);
+    double r;
+    if ((a < 1.0) && (b < 1.0)) {
+        /* Gamma variates of small shape are the boosted variate times
+         * u^(1/shape), which underflows to zero for both of them when the
+         * shapes are small enough (0/0). Only their ratio matters: work with
+         * the logarithms. 1 - u is on (0, 1], the logarithm always finite. */
+        const double lx = log(cmb_random_std_gamma(a + 1.0))
+                          + log(1.0 - cmb_random()) / a;
+        const double ly = log(cmb_random_std_gamma(b + 1.0))
+                          + log(1.0 - cmb_random()) / b;
+        r = 1.0 / (1.0 + exp(ly - lx));
+    }
+    else {
+        const double x = cmb_random_std_gamma(a);
+        const double y = cmb_random_std_gamma(b);
+        r = x / (x + y);
+    }
 
     cmb_assert_debug((r >= 0.0) && (r <= 1.0));
     return r;
